@@ -42,11 +42,11 @@ class Killed(Exception):
 def lattice_spec(
     n=4, moves=None, workers=1, steps=20, seed=1, cap=None, wall=-1, n_jumps=2, maxlength=400,
     allowmaxlength=False, delete_old=False, delete_old_all=False, subcycles=1, screen=0,
-    engine="lattice", ensemble_engines=None, extra_engines=None, zeroswap=None, origin=0.0, lm1=None, keep_side=False, pattern=False,
+    engine="lattice", ensemble_engines=None, extra_engines=None, zeroswap=None, origin=0.0, lm1=None, keep_side=False, pattern=False, quantis=False,
 ):
     moves = list(moves) if moves else ["sh"] * n
     return dict(
-        origin=origin, lm1=lm1, keep_side=keep_side, pattern=pattern,
+        origin=origin, lm1=lm1, keep_side=keep_side, pattern=pattern, quantis=quantis,
         n=n, moves=moves, workers=workers, steps=steps, seed=seed, cap=cap, wall=wall, n_jumps=n_jumps,
         maxlength=maxlength, allowmaxlength=allowmaxlength, delete_old=delete_old,
         delete_old_all=delete_old_all, subcycles=subcycles, screen=screen, engine=engine,
@@ -103,6 +103,9 @@ def lattice_config(spec):
     }
     if spec.get("keep_side"):
         cfg["output"]["keep_traj_fnames"] = [".side"]
+    if spec.get("quantis"):  # QuanTIS zero swaps: [0-] runs on its own engine section
+        cfg["simulation"]["tis_set"]["quantis"] = True
+        cfg["engine0"] = dict(eng)
     if spec.get("seed") is None:
         del cfg["simulation"]["seed"]
     if spec.get("ensemble_engines"):
@@ -137,6 +140,11 @@ def write_load_path(load_dir, number, orders, fname="path.lat", origin=0.0):
         fh.write("#     Time       Orderp\n")
         for i, x in enumerate(orders):
             fh.write(f"{i:>10d} {float(x) - origin:>12.6f}\n")
+    with open(os.path.join(pdir, "energy.txt"), "w") as fh:  # the lattice walk has no energies: zeros (QuanTIS needs some)
+        fh.write("# Cycle: 0, status: ACC, move: ('ld', 0, 0, 0)\n")
+        fh.write("#     Time      Potential        Kinetic\n")
+        for i in range(len(orders)):
+            fh.write(f"{i:>10d} {0.0:>14.6f} {0.0:>14.6f}\n")
 
 
 def make_rundir(spec, root=None):
